@@ -46,6 +46,37 @@ def _positive_syms_from(hyps):
     return pos
 
 
+def _pinned_syms_from(hyps):
+    """symbols the hypotheses pin to a numeral (x == c, Not(x != c)): a path on which the code
+    tested `tau == 0` must see tau as 0 in every normal form"""
+    out = {}
+
+    def eq(a, b):
+        for x, c in ((a, b), (b, a)):
+            if z3.is_const(x) and x.decl().kind() == z3.Z3_OP_UNINTERPRETED and z3.is_real(x) and (z3.is_rational_value(c) or z3.is_int_value(c)):
+                if z3.is_int_value(c):
+                    out[x.decl().name()] = Fraction(c.as_long())
+                else:
+                    out[x.decl().name()] = Fraction(c.numerator_as_long(), c.denominator_as_long())
+    for h in hyps:
+        stack = [h]
+        while stack:
+            e = stack.pop()
+            if not z3.is_app(e):
+                continue
+            k = e.decl().kind()
+            ch = e.children()
+            if k == z3.Z3_OP_AND:
+                stack.extend(ch)
+            elif k == z3.Z3_OP_EQ and len(ch) == 2 and z3.is_arith(ch[0]):
+                eq(ch[0], ch[1])
+            elif k == z3.Z3_OP_NOT and z3.is_app(ch[0]) and ch[0].decl().kind() == z3.Z3_OP_DISTINCT and len(ch[0].children()) == 2:
+                eq(*ch[0].children())
+            elif k == z3.Z3_OP_NOT and z3.is_app(ch[0]) and ch[0].decl().kind() == z3.Z3_OP_NOT:
+                stack.append(ch[0].children()[0])
+    return out
+
+
 class Prover:
     def __init__(self, hyps, facts=(), timeout_ms=20000):
         """hyps: z3 Bools over the original terms (assumptions, path condition);
@@ -53,6 +84,7 @@ class Prover:
         self.hyps = list(hyps)
         self.facts = list(facts)
         self.N = Normalizer(_positive_syms_from(self.hyps))
+        self.N.sym_values = _pinned_syms_from(self.hyps)
         self.N.known_source = lambda: list(self.hyps)
         self.timeout_ms = timeout_ms
         self._var = {}
